@@ -530,7 +530,7 @@ Proof.
   - unfold t_remove in Hg. destruct (t_get t g) as [r0|] eqn:E; [|apply (H f r Hg)].
     destruct (d_get (rf_dests r0) x) as [old|]; [|apply (H f r Hg)].
     destruct (filter (same_path p i) old) as [|rm rest]; [apply (H f r Hg)|].
-    destruct (pa_filtered rm); cbn [fst] in Hg; rewrite t_get_t_set in Hg;
+    destruct (pa_filtered rm || rf_deferring r0); cbn [fst] in Hg; rewrite t_get_t_set in Hg;
       (destruct (f =? g); [|apply (H f r Hg)]); inversion Hg; subst; cbn [rf_dests];
       (destruct (filter (fun q => negb (same_path p i q)) old);
        [unfold d_remove; apply NoDup_map_filter; apply (H g r0 E) | apply d_keys_nodup; apply (H g r0 E)]).
@@ -637,3 +637,22 @@ Example held_example :
   disciplined c (proj evs) = true /\ sys_rd st = None /\
   sys_log st = [AnnRelease 65537 [(7, 1); (8, 1)]; AnnInsert 65537 9 1].
 Proof. vm_compute. repeat split; reflexivity. Qed.
+
+(* finding C11-2 (repaired): while a family is deferring, a withdrawal and a peer
+   drop change the table but hand nothing to the distribution layer, and leave
+   the flag set *)
+Theorem C11_mutators_quiet_while_deferring :
+  forall (t : table) (f : fam) (x p i : N),
+    t_deferring t f = true ->
+    snd (t_remove t f x p i) = RNoChange
+    /\ snd (t_drop t f p) = RChanges []
+    /\ t_deferring (fst (t_remove t f x p i)) f = true
+    /\ t_deferring (fst (t_drop t f p)) f = true.
+Proof.
+  intros t f x p i Hd. unfold t_deferring in Hd. destruct (t_get t f) as [r|] eqn:E; [|discriminate].
+  unfold t_remove, t_drop, t_deferring. rewrite E, Hd. cbn [snd fst].
+  rewrite t_get_t_set, N.eqb_refl. cbn [rf_deferring].
+  destruct (d_get (rf_dests r) x) as [old|]; [|cbn [snd fst]; rewrite E; repeat split; assumption].
+  destruct (filter (same_path p i) old) as [|rm rest]; [cbn [snd fst]; rewrite E; repeat split; assumption|].
+  rewrite orb_true_r. cbn [snd fst]. rewrite t_get_t_set, N.eqb_refl. cbn [rf_deferring]. repeat split; assumption.
+Qed.
